@@ -2,10 +2,13 @@ pub mod c01;
 pub mod c02;
 pub mod c03;
 pub mod c04;
+pub mod c05;
 pub mod c06;
 pub mod c07;
 pub mod c08;
+pub mod c09;
 pub mod c10;
+pub mod c11;
 pub mod c12;
 pub mod c13;
 pub mod c14;
@@ -13,6 +16,7 @@ pub mod c15;
 pub mod c16;
 pub mod c17;
 pub mod c18;
+pub mod c19;
 pub mod selftest;
 
 use crate::common::{Ctx, Out};
@@ -23,10 +27,13 @@ pub fn run(ctx: &Ctx, out: &mut Out) -> bool {
         "C02" => c02::run(ctx, out),
         "C03" => c03::run(ctx, out),
         "C04" => c04::run(ctx, out),
+        "C05" => c05::run(ctx, out),
         "C06" => c06::run(ctx, out),
         "C07" => c07::run(ctx, out),
         "C08" => c08::run(ctx, out),
+        "C09" => c09::run(ctx, out),
         "C10" => c10::run(ctx, out),
+        "C11" => c11::run(ctx, out),
         "C12" => c12::run(ctx, out),
         "C13" => c13::run(ctx, out),
         "C14" => c14::run(ctx, out),
@@ -34,6 +41,7 @@ pub fn run(ctx: &Ctx, out: &mut Out) -> bool {
         "C16" => c16::run(ctx, out),
         "C17" => c17::run(ctx, out),
         "C18" => c18::run(ctx, out),
+        "C19" => c19::run(ctx, out),
         "SELFTEST" => selftest::run(ctx, out),
         _ => return false,
     }
